@@ -260,6 +260,7 @@ def run_vecenv(case):
     taps = tap_chain(prim)
     hp, ht = Holder(), Holder()
     problems, sharing = [], []
+    held_infos = []
     try:
         for k, op in enumerate(case["ops"]):
             outs = []
@@ -276,6 +277,13 @@ def run_vecenv(case):
                     res = {"obs": o, "rew": r, "done": d,
                            "term": [inf.get("terminal_observation") for inf in infos],
                            "trunc": np.array([bool(inf.get("TimeLimit.truncated", False)) for inf in infos])}
+                    if not is_twin:
+                        # the infos LIST and its dicts are results too: what the caller holds must not change at later calls
+                        for lab, held, fp in held_infos:
+                            now = (len(held), [sorted(map(str, h.keys())) if isinstance(h, dict) else None for h in held], _infos_fp(held))
+                            if now != fp and not any(p_[0] == "oracle-earlier-result-changed-by-later-call" for p_ in problems):
+                                problems.append(("oracle-earlier-result-changed-by-later-call", f"op {k} (step) changed the infos list returned by {lab}"))
+                        held_infos.append((f"op{k}", infos, (len(infos), [sorted(map(str, h.keys())) for h in infos], _infos_fp(infos))))
                     if is_twin:
                         for inf in infos:
                             inf.clear()
